@@ -164,7 +164,7 @@ def run(ram, clear, org, start, stack, tape_file, scr, banks, out7ffd, loader_ad
             for byte in stack_contents:
                 if 0 <= index < length:
                     ram[index] = byte
-                    index += 1
+                index += 1
         blocks.extend(_get_data_loader(title, org, length, start, stack, scr))
     else:
         if scr:
